@@ -58,6 +58,7 @@ ClassRank(v) ==
     [] v.t = "date"    -> 8
     [] v.t = "ts"      -> 9
     [] v.t = "regex"   -> 10
+    [] v.t = "now"     -> IF v.k = "date" THEN 8 ELSE 9   \* placeholder written by $currentDate (Update.tla)
 
 Sign(x) == IF x < 0 THEN -1 ELSE IF x > 0 THEN 1 ELSE 0
 
@@ -102,6 +103,8 @@ RECURSIVE Cmp(_, _), CmpDocFrom(_, _, _), CmpArrFrom(_, _, _)
 Cmp(l, r) ==
   LET lc == ClassRank(l)  rc == ClassRank(r) IN
   IF lc # rc THEN Sign(lc - rc)
+  ELSE IF l.t = "now" \/ r.t = "now"     \* the current time is later than every date/timestamp of the pools
+       THEN (IF l.t = r.t THEN 0 ELSE IF l.t = "now" THEN 1 ELSE -1)
   ELSE CASE lc = 0  -> 0
          [] lc = 1  -> NumCmp(l, r)
          [] lc = 2  -> StrCmp(l.s, r.s)
